@@ -3,94 +3,54 @@
   Property theorems.  Model: `WmModel/Route.lean`.  All statements are for every configuration (any number of
   handlers, any sharing of subscriber / publisher objects and topics, any strings), every order in which
   `RunHandlers` walks the handler map, every script of arriving messages and every output shape.
-  Helper lemmas first.  (The statements are close to the model's definitions – the weight of C08 is on the
+  Helper lemmas first.  (The routing statements are close to the model's definitions – the weight of C08 is on the
   correspondence check; what is genuinely proved is the context algebra and the independence of the map order.)
 -/
 import WmModel.Route
+import WmModel.RouteOld
 namespace Wm.Route
 
 /-! ### helper lemmas: context -/
 
-theorem get_setIf_same (c : Ctx) (k : Key) (v : String) :
-    (setIf c k v).get k = if v ≠ "" then v else c.get k := by
-  unfold setIf
-  by_cases hv : v ≠ "" <;> simp [hv, Ctx.get]
+theorem get_withValue_same (c : Ctx) (k : Key) (v : String) : (withValue c k v).get k = v := by
+  simp [withValue, Ctx.get]
 
-theorem get_setIf_other (c : Ctx) (k k' : Key) (v : String) (h : k ≠ k') :
-    (setIf c k v).get k' = c.get k' := by
-  unfold setIf
-  by_cases hv : v ≠ "" <;> simp [hv, Ctx.get, h]
-
-/-- what an accessor returns after `if v != "" { WithValue }` -/
-def pick (v old : String) : String := if v ≠ "" then v else old
-
-/-- the five accessors after `addHandlerContext`, for ANY previous context -/
-theorem ctx5_addHandlerContext (h : HCfg) (c : Ctx) :
-    ctx5 (addHandlerContext h c) =
-      ⟨pick h.name (c.get .handlerName), pick h.pubName (c.get .publisherName), pick h.subName (c.get .subscriberName),
-       pick h.subTopic (c.get .subscribeTopic), pick h.pubTopic (c.get .publishTopic)⟩ := by
-  simp [ctx5, addHandlerContext, pick, get_setIf_same, get_setIf_other]
-
-/-- a context that carries none of the router's five keys (what a broker hands over) -/
-def Fresh (c : Ctx) : Prop := ∀ k, c.get k = ""
-
-theorem fresh_nil : Fresh [] := fun _ => rfl
-
-theorem pick_empty (v : String) : pick v "" = v := by
-  unfold pick; by_cases hv : v = "" <;> simp [hv]
+theorem get_withValue_other (c : Ctx) (k k' : Key) (v : String) (h : k ≠ k') :
+    (withValue c k v).get k' = c.get k' := by
+  simp [withValue, Ctx.get, h]
 
 /-- the handler's own five values -/
 def own (h : HCfg) : Ctx5 := ⟨h.name, h.pubName, h.subName, h.subTopic, h.pubTopic⟩
+
+/-! ### context clause -/
+
+/-- **ctx_values**: for ANY incoming context – fresh, or still carrying the five values of an upstream handler –
+    after `addHandlerContext` the five accessors report this handler's name, publisher type name, subscriber type
+    name, subscribe topic and publish topic; an empty field is reported as `""`, never as a stale value. -/
+theorem ctx_values (h : HCfg) (c : Ctx) : ctx5 (addHandlerContext h c) = own h := by
+  simp [ctx5, addHandlerContext, own, get_withValue_same, get_withValue_other]
+
+/-- per accessor -/
+theorem ctx_get (h : HCfg) (c : Ctx) :
+    (addHandlerContext h c).get .handlerName = h.name ∧ (addHandlerContext h c).get .publisherName = h.pubName ∧
+    (addHandlerContext h c).get .subscriberName = h.subName ∧ (addHandlerContext h c).get .subscribeTopic = h.subTopic ∧
+    (addHandlerContext h c).get .publishTopic = h.pubTopic := by
+  simp [addHandlerContext, get_withValue_same, get_withValue_other]
 
 /-- applying the handler context twice (consumed message returned as output; the same object twice in the slice)
     reports the same five values as applying it once -/
 theorem ctx5_addHandlerContext_idem (h : HCfg) (c : Ctx) :
     ctx5 (addHandlerContext h (addHandlerContext h c)) = ctx5 (addHandlerContext h c) := by
-  have h1 := ctx5_addHandlerContext h c
-  rw [ctx5_addHandlerContext h (addHandlerContext h c)]
-  simp only [ctx5, Ctx5.mk.injEq] at h1
-  rw [h1.1, h1.2.1, h1.2.2.1, h1.2.2.2.1, h1.2.2.2.2, ctx5_addHandlerContext]
-  simp only [pick, Ctx5.mk.injEq]
-  refine ⟨?_, ?_, ?_, ?_, ?_⟩ <;> split <;> simp_all
+  rw [ctx_values, ctx_values]
 
-/-! ### context clause -/
-
-/-- **ctx_values** (partial: guard `Fresh c`): on a message whose incoming context carries none of the router's keys,
-    the five accessors report the handler's name, publisher type name, subscriber type name, subscribe topic and publish
-    topic (`""` when the field is empty).
-    Full statement (no guard): `∀ h c, ctx5 (addHandlerContext h c) = own h`.  It is FALSE for the code as it is:
-    `addHandlerContext` skips empty fields instead of overwriting, so an EMPTY field of the handler lets a value show
-    through that an upstream handler left on the incoming context (`stale_context_shows_through` below; finding
-    `stale-context-empty-field`).  Without the guard what holds is `ctx5_addHandlerContext` (exact description for any
-    incoming context) and `ctx_values_nonempty` (every non-empty field is reported, whatever the incoming context). -/
-theorem ctx_values_partial (h : HCfg) (c : Ctx) (hc : Fresh c) : ctx5 (addHandlerContext h c) = own h := by
-  rw [ctx5_addHandlerContext]
-  simp [hc .handlerName, hc .publisherName, hc .subscriberName, hc .subscribeTopic, hc .publishTopic, pick_empty, own]
-
-/-- whatever the incoming context holds, every NON-EMPTY field of the handler is reported -/
-theorem ctx_values_nonempty (h : HCfg) (c : Ctx) :
-    (h.name ≠ "" → (ctx5 (addHandlerContext h c)).handler = h.name) ∧
-    (h.pubName ≠ "" → (ctx5 (addHandlerContext h c)).pubName = h.pubName) ∧
-    (h.subName ≠ "" → (ctx5 (addHandlerContext h c)).subName = h.subName) ∧
-    (h.subTopic ≠ "" → (ctx5 (addHandlerContext h c)).subTopic = h.subTopic) ∧
-    (h.pubTopic ≠ "" → (ctx5 (addHandlerContext h c)).pubTopic = h.pubTopic) := by
-  rw [ctx5_addHandlerContext]
-  refine ⟨?_, ?_, ?_, ?_, ?_⟩ <;> intro hv <;> simp [pick, hv]
-
-example : ctx5 (addHandlerContext ⟨"h", 1, "in", "kafka.Subscriber", some 2, "", "kafka.Publisher", 0, false⟩ []) =
+example : ctx5 (addHandlerContext ⟨"h", 1, "in", "kafka.Subscriber", some 2, "", "kafka.Publisher", 0, false⟩
+      [(.publishTopic, "upstream-topic"), (.handlerName, "upstream")]) =
     ⟨"h", "kafka.Publisher", "kafka.Subscriber", "in", ""⟩ := by decide
 
-/-- witness of the finding: a no-publisher handler (publish topic `""`) that receives a message whose context still
-    carries an upstream handler's publish topic reports THAT topic, not its own empty one -/
-theorem stale_context_shows_through :
-    let h : HCfg := ⟨"b", 1, "in", "S", none, "", "message.disabledPublisher", 0, true⟩
-    let d : Delivery := ⟨1, "in", 1, .outs [], [(.publishTopic, "upstream-topic")]⟩
-    h.pubTopic = "" ∧ (handleOne h d).inCtx.pubTopic = "upstream-topic" ∧ (handleOne h d).inCtx ≠ own h := by
-  decide
-
-/-- inside the handler function: the handler's own values (partial: incoming context fresh, see `ctx_values_partial`) -/
-theorem ctx_in_handler_partial (h : HCfg) (d : Delivery) (hc : Fresh d.ctx) : (handleOne h d).inCtx = own h := by
-  have := ctx_values_partial h d.ctx hc
+/-- **ctx_in_handler**: inside the handler function the accessors report the handler's own values, whatever context
+    the message arrived with -/
+theorem ctx_in_handler (h : HCfg) (d : Delivery) : (handleOne h d).inCtx = own h := by
+  have := ctx_values h d.ctx
   unfold handleOne
   cases hp : produced h d.shape with
   | none => simpa [hp] using this
@@ -99,18 +59,15 @@ theorem ctx_in_handler_partial (h : HCfg) (d : Delivery) (hc : Fresh d.ctx) : (h
     | nil => simpa [hp] using this
     | cons r rs => cases hpub : h.pub <;> simpa [hp, hpub] using this
 
-/-- on every produced message, when `Publish` gets it: the handler's own values (partial: incoming context fresh –
-    it matters only for the consumed message returned as an output; fresh outputs start from an empty context) -/
-theorem ctx_on_produced_partial (h : HCfg) (d : Delivery) (hc : Fresh d.ctx) :
+/-- **ctx_on_produced**: on every produced message, when `Publish` gets it, the accessors report the handler's own
+    values – fresh objects, middleware objects and the consumed message returned as an output alike, whatever
+    context the consumed message arrived with -/
+theorem ctx_on_produced (h : HCfg) (d : Delivery) :
     ∀ call ∈ (handleOne h d).calls, ∀ it ∈ call.items, it.2 = own h := by
   intro call hcall it hit
-  have hin := ctx_values_partial h d.ctx hc
   have key : ∀ x : Ref, ctx5 (outCtx h (addHandlerContext h d.ctx) x) = own h := by
     intro x
-    cases x with
-    | consumed => simp only [outCtx]; rw [ctx5_addHandlerContext_idem]; exact hin
-    | fresh k => exact ctx_values_partial h [] fresh_nil
-    | mw k => exact ctx_values_partial h [] fresh_nil
+    cases x <;> exact ctx_values h _
   unfold handleOne at hcall
   cases hp : produced h d.shape with
   | none => simp [hp] at hcall
@@ -127,6 +84,24 @@ theorem ctx_on_produced_partial (h : HCfg) (d : Delivery) (hc : Fresh d.ctx) :
         rcases hit with rfl | ⟨x, _, rfl⟩
         · exact key r
         · exact key x
+
+/-! ### the defect repaired by 5846d09, kept as a witness (`WmModel/RouteOld.lean`) -/
+
+/-- **witness**: before the fix a no-publisher handler (publish topic `""`) that received a message whose context
+    still carried an upstream handler's publish topic reported THAT topic, not its own empty one – the unguarded
+    `ctx_values` was false for that code.  Same input as in corpus/C08 and the harness's stale cases. -/
+theorem Old.stale_context_shows_through :
+    let h : HCfg := ⟨"b", 1, "in", "S", none, "", "message.disabledPublisher", 0, true⟩
+    let d : Delivery := ⟨1, "in", 1, .outs [], [(.publishTopic, "upstream-topic")]⟩
+    h.pubTopic = "" ∧ (Old.inCtx h d).pubTopic = "upstream-topic" ∧ Old.inCtx h d ≠ own h ∧
+      (handleOne h d).inCtx = own h := by
+  decide
+
+/-- the old code agreed with the current one exactly on fields that are non-empty (so the defect needs an empty field) -/
+theorem Old.agrees_on_nonempty (h : HCfg) (c : Ctx)
+    (h1 : h.name ≠ "") (h2 : h.pubName ≠ "") (h3 : h.subName ≠ "") (h4 : h.subTopic ≠ "") (h5 : h.pubTopic ≠ "") :
+    ctx5 (Old.addHandlerContext h c) = own h := by
+  simp [ctx5, Old.addHandlerContext, Old.setIf, own, Ctx.get, h1, h2, h3, h4, h5]
 
 /-! ### one message -/
 
